@@ -38,13 +38,13 @@ for pid, text, tech in [
      "property-based testing: reference parser oracle; exhaustive small trees + Hypothesis random trees"),
     ("C11", "Generated-input search: Hypothesis-drawn token-level mutations of corpus files and generated documents, token soups over the whole vocabulary, a fixed family of unterminated constructs / every block type at the root / malformed INCLUDE lines / nesting at the stated bounds, a CPU-time growth-exponent measurement on long repetitive inputs, and short unterminated repetitive inputs loaded in a forked child under a kernel CPU limit; include_comments / include_position drawn; oracle: outcome is a dict / list of dicts or a LarkError with a position inside the text (OSError only with an INCLUDE line).",
      "fuzzing / property-based testing: mutation + token-soup generators with an outcome-classification oracle (Hypothesis; atheris in the thorough tier)"),
-    ("C19", "Complete enumeration of the finite vocabulary product (block type x parent context x schema property x position x value alternative x representative value) as minimal document models, plus all parent/child edges, all declared defaults and create(type, version) over all schema files x 26 versions; oracle: reference dictionary, printer log records, round trip, validation messages.",
+    ("C19", "Complete enumeration of the finite vocabulary product (block type x parent context x schema property x position x value alternative x representative value) as minimal document models, plus all parent/child edges, all declared defaults, create(type, version) over all schema files x 26 versions, and every interleaving ABA / ABAB / AABA of two child types under every parent; oracle: reference dictionary, printer log records, round trip, validation messages.",
      "exhaustive enumeration of a finite configuration product with a reference-model oracle"),
     ("C07", "Exhaustive single-fault sweep over every keyword slot x fault kind x context, plus generated-input search: Hypothesis-drawn schema-valid documents of every root type with 0-2 injected faults at drawn depths and list indexes (each fault confirmed invalid by the Draft-4 evaluator), plus arbitrary generated documents; oracles: by-construction expectation of the named messages, differential against jsonschema Draft 4 over the harness's own inlined schema copy, never-raises, metamorphic relations (value case, hidden keys, key case, list of roots, add_comments=True).",
      "property-based testing: fault injection with by-construction and differential (reference evaluator) oracles, metamorphic relations (Hypothesis)"),
-    ("C08", "Generated-input search: the independent renderer knows the line and column of every token it writes under a Hypothesis-drawn surface; recorded positions of objects, keywords and values are compared with them, and messages for injected faults must carry the offending keyword's / enclosing opener's position.",
+    ("C08", "Generated-input search: the independent renderer knows the line and column of every token it writes under a Hypothesis-drawn surface; recorded positions of objects, keywords and values are compared with them, messages for injected faults must carry the offending keyword's / enclosing opener's position, and an exhaustive sweep plants an object-level fault in the innermost block of every parent chain.",
      "property-based testing: renderer-known ground truth for positions + fault injection (Hypothesis)"),
-    ("C09", "Complete enumeration of annotated entry x versions around each bound x parent chain x root schema with an independent deep pruner + Draft-4 evaluation as the oracle, and a Hypothesis rule-based state machine over one Validator object and the module API compared with fresh Validators.",
+    ("C09", "Complete enumeration of annotated entry x versions around each bound x parent chain x root schema with an independent deep pruner + Draft-4 evaluation as the oracle, a Hypothesis rule-based state machine over one Validator object and the module API compared with fresh Validators, and the command line (--version) compared with the API.",
      "exhaustive enumeration with a reference pruner oracle + Hypothesis stateful machine (history independence)"),
     ("C13", DOC + "oracle: metamorphic - the four include_position x include_comments combinations through loads / load / open give the plain dictionary once hidden keys are removed; position-only dictionaries print byte-identically; dictionaries with comments print the same event stream once the independent reader drops comments.",
      "property-based testing: metamorphic relation over bookkeeping flags and entry points (Hypothesis)"),
